@@ -95,10 +95,24 @@ Section AdoptFull.
       end
     end.
 
+  Fixpoint flow_full_forall (P : txn -> credit_info -> state W -> Prop) (e : env) (fe : flow_env) (fs : flow_state)
+           (txs : list (txn * adopt_in * credit_info)) (st : state W) : Prop :=
+    match txs with
+    | [] => True
+    | (t, ai, ci) :: rest =>
+      match adopt_full W O clause_result write_credit e fe fs t ai ci st with
+      | FRejected _ _ _ st' => flow_full_forall P e fe fs rest st'
+      | FAdopted _ _ st' rc fs' => P t ci st /\ flow_full_forall P e fe fs' rest st'
+      end
+    end.
+  Definition flow_full_ops_ok (dom : list Z) (e : env) := flow_full_forall (fun t ci st => tx_ops_ok W O clause_result dom e t ci st) e.
+  Definition flow_full_no_self (e : env) := flow_full_forall (fun t ci st => tx_no_self W O clause_result e t ci st) e.
+
   Lemma adopt_all_full_totals e fe dom :
     let T := e_time e in let S := e_stop e in
-    clause_ops_ok W O clause_result dom -> NoDup dom -> In (e_benef e) dom ->
+    NoDup dom -> In (e_benef e) dom ->
     forall txs fs st rcs fs' st' rcs',
+    flow_full_ops_ok dom e fe fs txs st ->
     adopt_all_full W O clause_result write_credit e fe fs txs st rcs = (fs', st', rcs') ->
     Forall (fun rc => In (r_payer O rc) dom) rcs' ->
     exists new, rcs' = rcs ++ new /\
@@ -106,11 +120,12 @@ Section AdoptFull.
         sum_eng T S dom (l_acc (fst st)) + sum_reward O new - sum_paid O new - snd (flow_full_burned e fe fs txs st) /\
       sum_bal dom (l_acc (fst st')) = sum_bal dom (l_acc (fst st)) - fst (flow_full_burned e fe fs txs st).
   Proof.
-    intros T S N ND HB. induction txs as [|[[t ai] ci] rest IH]; intros fs st rcs fs' st' rcs' H HP; cbn in H.
+    intros T S ND HB. induction txs as [|[[t ai] ci] rest IH]; intros fs st rcs fs' st' rcs' N H HP; cbn in H.
     - inversion H; subst. exists []. rewrite app_nil_r. cbn. repeat split; lia.
-    - cbn [flow_full_burned]. destruct (adopt_full _ _ _ _ _ _ _ _ _ _ _) as [c s1|s1 rc fs1] eqn:EA.
+    - unfold flow_full_ops_ok in N. cbn [flow_full_burned flow_full_forall] in *. destruct (adopt_full _ _ _ _ _ _ _ _ _ _ _) as [c s1|s1 rc fs1] eqn:EA.
       + apply adopt_full_rejected in EA. subst s1. eapply IH; eauto.
-      + destruct (IH _ _ _ _ _ _ H HP) as [new [E1 [E2 E3]]].
+      + destruct N as [N N'].
+        destruct (IH _ _ _ _ _ _ N' H HP) as [new [E1 [E2 E3]]].
         assert (HIn : In (r_payer O rc) dom).
         { rewrite Forall_forall in HP. apply HP. rewrite E1. apply in_or_app. left. apply in_or_app. right. left. reflexivity. }
         apply adopt_full_adopted in EA. destruct EA as [EA _].
@@ -122,9 +137,10 @@ Section AdoptFull.
         fold T S in D1. split; lia.
   Qed.
 
-  Lemma flow_full_burned_none (NS : no_self_destruct_to_self W O clause_result) e fe txs : forall fs st, flow_full_burned e fe fs txs st = (0, 0).
+  Lemma flow_full_burned_none e fe txs : forall fs st, flow_full_no_self e fe fs txs st -> flow_full_burned e fe fs txs st = (0, 0).
   Proof.
-    induction txs as [|[[t ai] ci] rest IH]; intros fs st; [reflexivity|]. cbn [flow_full_burned].
-    destruct (adopt_full _ _ _ _ _ _ _ _ _ _ _); [apply IH|]. rewrite tx_burned_none by exact NS. rewrite IH. reflexivity.
+    induction txs as [|[[t ai] ci] rest IH]; intros fs st NS; [reflexivity|]. unfold flow_full_no_self in NS. cbn [flow_full_burned flow_full_forall] in *.
+    destruct (adopt_full _ _ _ _ _ _ _ _ _ _ _); [apply IH; exact NS|]. destruct NS as [N1 N2].
+    rewrite (tx_burned_none W O clause_result) by exact N1. rewrite IH by exact N2. reflexivity.
   Qed.
 End AdoptFull.
